@@ -73,6 +73,49 @@ pub fn run(args: &[String]) {
       }
     }
   }
+  // user expression crystals: lines `expr <id> <json>` on stdin (written by props/c01.py from the translated formulas)
+  let mut input = String::new();
+  let _ = std::io::Read::read_to_string(&mut std::io::stdin(), &mut input);
+  for line in input.lines() {
+    let mut it = line.splitn(3, ' ');
+    if it.next() != Some("expr") {
+      continue;
+    }
+    let id = it.next().unwrap_or("");
+    let js = it.next().unwrap_or("");
+    let meta = match metas.iter().find(|m| m.id == id) {
+      Some(m) => m,
+      None => continue,
+    };
+    let crystal = match CrystalType::from_string(js) {
+      Ok(c) => c,
+      Err(e) => {
+        emit(json!({"kind": "expr_err", "id": id, "err": e.to_string()}));
+        continue;
+      }
+    };
+    let (lo, hi) = match meta.transmission_range {
+      Some(r) => (r.0, r.1),
+      None => continue,
+    };
+    let mut ls: Vec<f64> = vec![lo, hi];
+    for _ in 0..(n / 2).max(2) {
+      ls.push(rng.log_range(lo, hi));
+    }
+    for l in ls.iter() {
+      for t_c in [-50.0, 20.0, 24.5, 200.0] {
+        let t_k = utils::from_celsius_to_kelvin(t_c);
+        let r = guarded(|| *crystal.get_indices(*l * M, t_k));
+        match r {
+          Ok(v) => emit(json!({
+            "kind": "expr_idx", "id": id, "w": fx(*l), "tk": fx(*(t_k / K)), "tc": fx(t_c),
+            "n": [fx(v.x), fx(v.y), fx(v.z)],
+          })),
+          Err(m) => emit(json!({"kind": "expr_panic", "id": id, "msg": m})),
+        }
+      }
+    }
+  }
   // strings that are not identifiers must not resolve to a built-in crystal
   for s in ["bbo_1", "BBO", "KTP ", " KTP", "LiNbO3", "ktp", "BBO_2", ""] {
     let r = CrystalType::from_string(s);
